@@ -204,6 +204,178 @@ def g_cache_kernel_factories(tier):
   return out
 
 
+VALUE_TYPES = {"int", "bool", "float", "str", "enum"}
+
+
+def _value_ok(e, host, seen, ft, why):
+  """is expression `e` (ast) in host function `host` provably a plain python value (hashed BY VALUE by
+  cache_kernel._hash_arg), as opposed to an object with a `.size` (numpy scalars have size 1 and would all share one
+  cache slot)?"""
+  if isinstance(e, ast.Constant):
+    return True
+  if isinstance(e, (ast.Compare,)):
+    return True  # python comparison results used as flags (numpy bool from a numpy comparison is caught where that operand is judged)
+  if isinstance(e, ast.BoolOp):
+    return all(_value_ok(v, host, seen, ft, why) for v in e.values)
+  if isinstance(e, ast.UnaryOp):
+    return isinstance(e.op, ast.Not) or _value_ok(e.operand, host, seen, ft, why)
+  if isinstance(e, ast.BinOp):
+    return _value_ok(e.left, host, seen, ft, why) and _value_ok(e.right, host, seen, ft, why)
+  if isinstance(e, ast.IfExp):
+    return _value_ok(e.body, host, seen, ft, why) and _value_ok(e.orelse, host, seen, ft, why)
+  if isinstance(e, ast.Call):
+    f = ast.unparse(e.func)
+    if f in ("bool", "int", "float", "str", "len"):
+      return True
+    if f in ("max", "min", "abs"):
+      return all(_value_ok(a, host, seen, ft, why) for a in e.args)
+    # a host function of the repo with a value return annotation
+    from wpv import launchsites
+
+    t = launchsites._resolve_host(host, e.func)
+    if t is not None and t.node.returns is not None and ast.unparse(t.node.returns) in ("bool", "int", "float"):
+      return True
+    # any function of the repo (e.g. a @wp.func called from python) annotated to return a scalar, applied to python values
+    if isinstance(e.func, ast.Name):
+      r = extract.resolve_symbol(host.module, e.func.id)
+      if r is not None and r[0] == "func" and r[1].node.returns is not None and ast.unparse(r[1].node.returns) in ("bool", "int", "float"):
+        return all(_value_ok(a, host, seen, ft, why) for a in e.args)
+    why.append(f"call {f}(..) of unknown result type")
+    return False
+  if isinstance(e, ast.Subscript):
+    b = ast.unparse(e.value)
+    if b.endswith(".shape"):
+      return True  # warp array shapes are tuples of python ints
+    why.append(f"subscript {ast.unparse(e)}")
+    return False
+  if isinstance(e, ast.Attribute):
+    t = ast.unparse(e)
+    if t.split(".")[0] in ("types",) or t.split(".")[-2:-1] in (["ConeType"], ["SolverType"], ["GeomType"]):
+      return True  # module constant / enum member
+    if t.endswith(".size") or ".block_dim." in t:
+      return True  # TileSet.size / BlockDim fields: python ints of frozen dataclasses
+    if t.endswith(".value"):
+      return True  # value of an enum member
+    root = t.split(".")[0]
+    if root in ("m", "d", "mfull", "dfull"):
+      key = ("m" if root.startswith("m") else "d") + t[len(root):]
+      tys = ft.get(key)
+      if tys is None:
+        why.append(f"{t}: runtime type not audited")
+        return False
+      bad = sorted(set(tys) - VALUE_TYPES)
+      if bad:
+        why.append(f"{t} is a {bad[0]} at run time (numpy scalar: keyed by .size == 1, not by value)")
+        return False
+      return True
+    why.append(f"attribute {t}")
+    return False
+  if isinstance(e, ast.Name):
+    if e.id in ("True", "False", "None"):
+      return True
+    if e.id in seen:
+      return True
+    seen = seen | {e.id}
+    # parameter of the host function with a value annotation
+    allp = list(host.node.args.args + host.node.args.kwonlyargs)
+    pp = getattr(host, "parent", None)
+    while pp is not None:
+      allp += list(pp.node.args.args + pp.node.args.kwonlyargs)
+      pp = getattr(pp, "parent", None)
+    for a in allp:
+      if a.arg == e.id:
+        ann = ast.unparse(a.annotation) if a.annotation is not None else ""
+        if ann in ("bool", "int", "float", "str") or ann.split(".")[-1] in _enum_names():
+          return True
+        why.append(f"parameter {e.id}: {ann or 'unannotated'}")
+        return False
+    vals = []
+    scopes = [host]
+    pp = getattr(host, "parent", None)
+    while pp is not None:
+      scopes.append(pp)  # a nested function also sees the locals of the functions around it
+      pp = getattr(pp, "parent", None)
+    for n in (x for sc in scopes for x in ast.walk(sc.node)):
+      if isinstance(n, ast.Assign):
+        for tg in n.targets:
+          if isinstance(tg, ast.Name) and tg.id == e.id:
+            vals.append(n.value)
+          elif isinstance(tg, ast.Tuple) and any(isinstance(x, ast.Name) and x.id == e.id for x in tg.elts):
+            # a, b = f(..): judge the matching element of f's returned tuple, in f's own scope
+            pos = [i for i, x in enumerate(tg.elts) if isinstance(x, ast.Name) and x.id == e.id][0]
+            got = None
+            if isinstance(n.value, ast.Call) and isinstance(n.value.func, ast.Name):
+              callee = None
+              for sc in scopes:
+                callee = sc.nested.get(n.value.func.id) if hasattr(sc, "nested") else None
+                if callee is not None:
+                  break
+              if callee is None:
+                from wpv import launchsites
+
+                callee = launchsites._resolve_host(host, n.value.func)
+              if callee is not None:
+                rets = [r.value for r in ast.walk(callee.node) if isinstance(r, ast.Return) and isinstance(r.value, ast.Tuple) and len(r.value.elts) > pos]
+                if rets and all(_value_ok(r.elts[pos], callee, frozenset(), ft, why) for r in rets):
+                  got = ast.Constant(0)
+            elif isinstance(n.value, ast.Tuple) and len(n.value.elts) > pos:
+              got = n.value.elts[pos]
+            vals.append(got)
+      elif isinstance(n, ast.AugAssign) and isinstance(n.target, ast.Name) and n.target.id == e.id:
+        vals.append(n.value)
+      elif isinstance(n, (ast.For,)) and isinstance(n.target, ast.Name) and n.target.id == e.id:
+        it = ast.unparse(n.iter)
+        vals.append(ast.Constant(0) if it.startswith("range(") else None)
+    if not vals:
+      # module-level constant of the host's module
+      r = extract.resolve_symbol(host.module, e.id)
+      if r is not None:
+        return True
+      why.append(f"name {e.id} has no visible definition")
+      return False
+    ok = True
+    for v in vals:
+      if v is None or not _value_ok(v, host, seen, ft, why):
+        ok = False
+    return ok
+  why.append(f"expression {ast.unparse(e)[:40]}")
+  return False
+
+
+def g_factory_call_args(tier):
+  """(G3b) at every call of a @cache_kernel factory, the actual argument of each value-typed parameter is a plain
+  python value (so that the cache key distinguishes its values)"""
+  from wpv import launchsites
+  from wpv.consts import CONSTS
+
+  ft = CONSTS.get("field_types") or {}
+  enums = _enum_names()
+  out = []
+  n = 0
+  if not ft:
+    return [Result(oid="cache_kernel_args#audit", status="crash", reason="runtime field types were not dumped: " + str(CONSTS.get("field_types_error")))]
+  for mod in extract.all_module_names():
+    mi = extract.load_module(mod)
+    for q, host in mi.funcs.items():
+      for node in ast.walk(host.node):
+        if not isinstance(node, ast.Call):
+          continue
+        tgt = launchsites._resolve_host(host, node.func)
+        if tgt is None or not tgt.cached_factory or tgt.key == host.key:
+          continue
+        params = tgt.node.args.args
+        for a, actual in zip(params, node.args):
+          ann = ast.unparse(a.annotation) if a.annotation is not None else None
+          if not (ann in HASHABLE_ANN or (ann and ann.split(".")[-1] in enums)):
+            continue
+          n += 1
+          why = []
+          ok = _value_ok(actual, host, frozenset(), ft, why)
+          out.append(Result(oid=f"cache_kernel_args#{mod}.{q}@{node.lineno}.{tgt.node.name}.{a.arg}", status="discharged" if ok else "violated", kind="MEMO_SOUND", func=host.key, backend="source analysis + runtime type audit of Model/Data fields", meta={"function": host.key, "source_hash": host.source_hash, "goal": f"the argument `{ast.unparse(actual)[:60]}` for the value parameter {a.arg}: {ann} of {tgt.node.name} is a plain python value (hashed by value)", "why_not": why[:3]}))
+  out.append(Result(oid="cache_kernel_args#scanned", status="discharged" if n >= 50 else "crash", reason="factory call sites not found", kind="MEMO_SOUND", func="*", backend="source analysis", meta={"function": "*", "goal": "value arguments at factory call sites scanned", "arguments": n}))
+  return out
+
+
 def g_cache_kernel_wrapper(tier):
   """G4 bounded: run the extracted cache_kernel (pure python) against its contract"""
   mi = extract.load_module("warp_util")
@@ -251,4 +423,4 @@ def g_cache_kernel_wrapper(tier):
 
 
 def groups(tier):
-  return [("global_frame", g_global_frame), ("memo_decorators", g_memo_decorators), ("cache_kernel_factories", g_cache_kernel_factories), ("cache_kernel_wrapper", g_cache_kernel_wrapper)]
+  return [("global_frame", g_global_frame), ("memo_decorators", g_memo_decorators), ("cache_kernel_factories", g_cache_kernel_factories), ("factory_call_args", g_factory_call_args), ("cache_kernel_wrapper", g_cache_kernel_wrapper)]
